@@ -18,7 +18,7 @@ VARIABLES l,         \* next trace line to consume
 tvars == <<msgVars, bVars, lVars, eVars, l, lastRan, ucb, ecall, eenv>>
 EvObjs == 0..31
 NoECall == [op |-> -1, ev |-> 0, fl |-> 0, ff |-> 0, thr |-> -1]
-NoEnv == [eof |-> FALSE, eofSeen |-> FALSE, kmin |-> 0, cbs |-> 0, pendcb |-> FALSE, err |-> FALSE, errSeen |-> FALSE]
+NoEnv == [eof |-> FALSE, eofSeen |-> FALSE, kmin |-> 0, cbs |-> 0, pendcb |-> FALSE, err |-> FALSE, errSeen |-> FALSE, eofAt |-> 0]
 
 IsEv(e) == l <= Len(Tr) /\ Tr[l].e = e /\ l' = l + 1
 E == Tr[l]
@@ -190,7 +190,8 @@ TEvCb      == IsEv("evcb") /\ KeepAllButE /\ UNCHANGED <<eVars, ecall>>
                                       ![E.u].eofSeen = @ \/ ((E.fl \div 256) % 2 = 1),
                                       ![E.u].errSeen = @ \/ ((E.fl \div 512) % 2 = 1)]
 TEvEnv     == (IsEv("mkready") \/ IsEv("drained")) /\ KeepAllButE /\ UNCHANGED <<eVars, ecall, eenv>>
-TEvPeer    == IsEv("peerclose") /\ KeepAllButE /\ UNCHANGED <<eVars, ecall>> /\ eenv' = [eenv EXCEPT ![E.u].eof = TRUE]
+TEvPeer    == IsEv("peerclose") /\ KeepAllButE /\ UNCHANGED <<eVars, ecall>>
+              /\ eenv' = [eenv EXCEPT ![E.u].eof = TRUE, ![E.u].eofAt = eenv[E.u].cbs]
 (* readerclose: the read end of a pipe whose WRITE end is registered goes away: the kernel reports an error condition *)
 TEvPeerErr == IsEv("readerclose") /\ KeepAllButE /\ UNCHANGED <<eVars, ecall>> /\ eenv' = [eenv EXCEPT ![E.u].err = TRUE]
 (* evreopen: the descriptor was closed behind the library's back and its number reused; the registration record stays *)
@@ -200,6 +201,9 @@ TEvCount   == IsEv("evcount") /\ KeepAllButE /\ UNCHANGED <<eVars, ecall, eenv>>
               /\ E.cnt = eenv[E.u].cbs
               /\ E.cnt >= eenv[E.u].kmin                                   \* (C06) a persistent event kept firing
               /\ (eenv[E.u].eof /\ ereg[E.u].present /\ ~ereg[E.u].dis => eenv[E.u].eofSeen)   \* (C06) EOF reported
+              \* (C06) end of stream (full or half close) is level triggered: at most one callback can have been in flight
+              \* when the peer closed, so from the second callback after it on the EOF flag must have been seen
+              /\ (eenv[E.u].eof /\ eenv[E.u].cbs >= eenv[E.u].eofAt + 2 => eenv[E.u].eofSeen)
               /\ (eenv[E.u].err /\ eenv[E.u].cbs > 0 => eenv[E.u].errSeen)                       \* (C06) error condition carries its flag
               /\ C06Inv
 
